@@ -69,6 +69,15 @@ func (g *c02gen) serStr(s []byte) []byte {
 			return []byte{0xC2, byte(v), byte(v >> 8), byte(v >> 16), byte(v >> 24)}
 		}
 	}
+	if len(s) >= 4 && g.r.Intn(5) == 0 {
+		// a real LZF stream: literal runs and back references, overlapping ones (distance < length) included
+		rg.hit("c02-lzf-refs")
+		comp := c02LzfCompress(g, s)
+		b := []byte{0xC3}
+		b = append(b, rg.encLen(uint64(len(comp)), false)...)
+		b = append(b, rg.encLen(uint64(len(s)), false)...)
+		return append(b, comp...)
+	}
 	if len(s) > 0 && g.r.Intn(5) == 0 {
 		// LZF stream made of literal runs only
 		rg.hit("c02-lzf")
@@ -88,6 +97,50 @@ func (g *c02gen) serStr(s []byte) []byte {
 		return append(b, comp...)
 	}
 	return rg.rawStr(s)
+}
+
+// c02LzfCompress: a greedy LZF compressor (longest earlier match, up to 264 bytes, distances up to 8191; a match may
+// run into the bytes it is producing — that is how LZF codes runs and short-period data)
+func c02LzfCompress(g *c02gen, s []byte) []byte {
+	var out, lit []byte
+	flush := func() {
+		for len(lit) > 0 {
+			n := len(lit)
+			if n > 32 {
+				n = 32
+			}
+			out = append(out, byte(n-1))
+			out = append(out, lit[:n]...)
+			lit = lit[n:]
+		}
+	}
+	for i := 0; i < len(s); {
+		best, bd := 0, 0
+		for d := 1; d <= i && d <= 8191; d++ {
+			l := 0
+			for i+l < len(s) && l < 264 && s[i+l] == s[i+l-d] {
+				l++
+			}
+			if l > best || (l == best && l > 0 && g.r.Intn(3) == 0) {
+				best, bd = l, d
+			}
+		}
+		if best >= 3 && g.r.Intn(5) != 0 {
+			flush()
+			l, d := best-2, bd-1
+			if l < 7 {
+				out = append(out, byte(l<<5)|byte(d>>8), byte(d))
+			} else {
+				out = append(out, byte(7<<5)|byte(d>>8), byte(l-7), byte(d))
+			}
+			i += best
+		} else {
+			lit = append(lit, s[i])
+			i++
+		}
+	}
+	flush()
+	return out
 }
 
 func c02dumpOf(t byte, body []byte) []byte {
